@@ -109,6 +109,10 @@ class Tr:
                         raise TranslateError(f'{self.path}:{m.lineno}: class-level statement in {node.name} (class attributes are not modelled)')
                     if m.name in SKIP:
                         continue
+                    if m.name.startswith('__') and m.name.endswith('__') and m.name not in LNAME:
+                        # a special method changes what an operator or a built-in does to every object of the class (`+=`, hashing,
+                        # truth value, attribute access, copying ...) without any call naming it: never skipped silently
+                        raise TranslateError(f'{self.path}:{m.lineno}: special method {node.name}.{m.name} is not part of the modelled interface')
                     if m.decorator_list:
                         raise TranslateError(f'{self.path}:{m.lineno}: {node.name}.{m.name} is decorated')
                     self.methods[(CLASSES[node.name][0], m.name)] = m
